@@ -4,12 +4,14 @@ import (
 	"bytes"
 	"encoding/hex"
 	"fmt"
+	"github.com/google/go-tdx-guest/verify/trust"
 	"os"
 	"path/filepath"
 	"reflect"
 	"strings"
 	"sync"
 	"testing"
+	"time"
 	"unsafe"
 
 	"github.com/google/go-tdx-guest/abi"
@@ -605,6 +607,97 @@ func TestC16(t *testing.T) {
 
 	// (2) schedules: goroutines sharing one message, each with its own options, under the race detector.
 	rounds := gen.N(30, 3000)
+	// several callers verify the SAME quote at the same time, each through its own getter - and the getters do not
+	// serve the same revocation lists (one caller's PCS mirror already lists the leaf, another's is down): every caller
+	// gets the verdict its own data gives when it runs alone
+	gen.Direct(t, "concurrent-callers-with-their-own-revocation-lists", func(t *testing.T) {
+		for round := 0; round < gen.N(6, 300); round++ {
+			s := gen.NewStream(gen.ProcSeed()*991+uint64(round), "c16crl")
+			w := gen.NewWorld(gen.NewPKI(gen.PKISpec{Seed: gen.PKISeeds[round%4]}), s)
+			w.HonestCollateral()
+			w.Build()
+			pckURL := gen.PckCrlURL(w.IssuerCA())
+			revoking := w.PckCrl
+			revoking.Revoked = append(append([][]byte{}, w.PckCrl.Revoked...), w.Leaf.X.SerialNumber.Bytes())
+			revokingRoot := w.RootCrl
+			revokingRoot.Revoked = append(append([][]byte{}, w.RootCrl.Revoked...), w.PKI.Int.X.SerialNumber.Bytes())
+			type caller struct {
+				name string
+				mk   func() trust.HTTPSGetter
+			}
+			delay := time.Duration(1+s.Intn(4)) * time.Millisecond
+			mkWith := func(edit func(g *gen.Getter)) func() trust.HTTPSGetter {
+				return func() trust.HTTPSGetter {
+					g := w.NewGetter()
+					edit(g)
+					return slowGetter{g, delay}
+				}
+			}
+			callers := []caller{
+				{"clean-lists", mkWith(func(g *gen.Getter) {})},
+				{"pck-crl-lists-the-leaf", mkWith(func(g *gen.Getter) {
+					r := g.Resp[pckURL]
+					r.Body = gen.MakeCRL(w.PKI.Int, w.PKI.Int.Key, revoking)
+					g.Resp[pckURL] = r
+				})},
+				{"root-crl-lists-the-issuing-ca", mkWith(func(g *gen.Getter) {
+					for _, u := range append([]string{gen.RootCrlURL}, w.PKI.Root.X.CRLDistributionPoints...) {
+						if r, ok := g.Resp[u]; ok {
+							r.Body = gen.MakeCRL(w.PKI.Root, w.PKI.Root.Key, revokingRoot)
+							g.Resp[u] = r
+						}
+					}
+				})},
+				{"pck-crl-endpoint-down", mkWith(func(g *gen.Getter) { delete(g.Resp, pckURL) })},
+			}
+			run := func(c caller) string {
+				o := w.Options(gen.LvlCRL, nil, nil)
+				o.Getter = c.mk()
+				return gen.Call(func() error { return verify.RawTdxQuote(w.Raw, o) }).Short()
+			}
+			n := 4 + s.Intn(9)
+			who := make([]caller, n)
+			solo := make([]string, n)
+			for i := range who {
+				who[i] = callers[(i+s.Intn(2))%len(callers)]
+				solo[i] = run(who[i])
+			}
+			if solo0 := run(callers[0]); solo0 != "accept" {
+				gen.Inconclusive("concurrent callers: the clean world is not accepted alone: " + solo0)
+				continue
+			}
+			got := make([][]string, n)
+			start := make(chan struct{})
+			var wg sync.WaitGroup
+			for i := range who {
+				wg.Add(1)
+				go func(i int) {
+					defer wg.Done()
+					<-start
+					for rep := 0; rep < 4; rep++ {
+						got[i] = append(got[i], run(who[i]))
+					}
+				}(i)
+			}
+			close(start)
+			wg.Wait()
+			gen.EvalN(n * 5)
+			for i := range who {
+				for _, g := range got[i] {
+					if g != solo[i] {
+						var names []string
+						for _, c := range who {
+							names = append(names, c.name)
+						}
+						gen.Fail(t, gen.Violation{Key: "concurrent-verdict-differs:own-revocation-lists:" + who[i].name, Oracle: "concurrent calls give the same verdict as when run alone", Detail: fmt.Sprintf("%d callers %v verify one quote at the same time, each through its own getter: caller %d (%s) alone %s, concurrently %s", n, names, i, who[i].name, solo[i], g), Replay: map[string]any{"kind": "c16-own-lists", "needs_race": false}})
+						return
+					}
+				}
+			}
+			gen.NonTrivial("c16crl", round, n)
+			gen.Class("concurrent-callers-with-their-own-revocation-lists")
+		}
+	})
 	gen.Direct(t, "concurrent", func(t *testing.T) {
 		for round := 0; round < rounds; round++ {
 			s := gen.NewStream(gen.ProcSeed()*977+uint64(round), "c16race")
@@ -613,6 +706,26 @@ func TestC16(t *testing.T) {
 			w.ChainNUL = s.Intn(2) == 0 // the optional terminator after the chain
 			if s.Intn(3) == 0 {
 				w.Q.Extra = s.Bytes(1 + s.Intn(40))
+			}
+			if round%2 == 1 {
+				// a PCK leaf whose SGX extension lists its members - and the members of its TCB sequence - in another
+				// order (they are identified by their object identifiers, not by their position)
+				v := w.Sgx
+				top := gen.SgxTree(&v)
+				tcb := tcbNode(top)
+				perm := func(n int) []int {
+					p := seqInts(n)
+					for i := n - 1; i > 0; i-- {
+						j := s.Intn(i + 1)
+						p[i], p[j] = p[j], p[i]
+					}
+					return p
+				}
+				tcb.Kids = gen.Permute(tcb.Kids, perm(len(tcb.Kids)))
+				if round%4 == 3 {
+					top.Kids = gen.Permute(top.Kids, perm(len(top.Kids)))
+				}
+				w.SgxDER = top.Encode()
 			}
 			w.Build()
 			src := sources[round%len(sources)]
@@ -773,4 +886,15 @@ func firstLines(s string, n int) string {
 		l = l[:n]
 	}
 	return strings.Join(l, " | ")
+}
+
+// slowGetter answers after a short pause (a download takes time: concurrent callers overlap inside it).
+type slowGetter struct {
+	inner trust.HTTPSGetter
+	d     time.Duration
+}
+
+func (g slowGetter) Get(u string) (map[string][]string, []byte, error) {
+	time.Sleep(g.d)
+	return g.inner.Get(u)
 }
